@@ -62,9 +62,15 @@ func genC08(dir, tier string, seed int64) {
 		maxRank, keep = 3, 1
 	}
 	raw := newCaseWriter(dir, "C08_ops", opHeader("CheckC08"), opFooter,
-		fmt.Sprintf("bounded-exhaustive: all data shapes of rank 1..%d with extents 1..3 x (Transpose: all permutations, non-permutations (all zeros, a repeated entry, an entry r, r+1 or -1 at every position), a too-short and a too-long perm, default; Concat: every axis in [-r-1,r] with 1..3 inputs incl. one differing extent per axis and inputs of two different element types; Gather: every axis in [-r-1,r], index tensors of shape (),(1),(2),(2,2),(1,3) with positive, negative and out-of-range indices; Expand: every target shape of rank 1..3; Slice: every axis in both spellings (and the same axis shifted out of range by r and 2r on either side) x all (start,end) in [-d-2,d+2]^2 x steps {1,2,3,-1} + INT64 extremes + all two-axis slices of rank-2 data); index-coded data, dtype round-robin over all 14 element types, every Transpose / Concat / Gather case additionally as int64 and as float32; index tensors int32 instead of int64 in every fourth Gather / Slice case; quick tier keeps a seeded 1/%d sample of the Slice sweep of rank 3 and of Expand", maxRank, keep), tier == "thorough", 1200)
+		fmt.Sprintf("bounded-exhaustive: all data shapes of rank 1..%d with extents 1..3 (and six shapes with an extent of 5, 9 or 17) x (Transpose: all permutations, non-permutations (all zeros, a repeated entry, an entry r, r+1 or -1 at every position), a too-short and a too-long perm, default; Concat: every axis in [-r-1,r] with 1..3 inputs incl. one differing extent per axis and inputs of two different element types; Gather: every axis in [-r-1,r], index tensors of shape (),(1),(2),(2,2),(1,3) with positive, negative and out-of-range indices; Expand: every target shape of rank 1..3; Slice: every axis in both spellings (and the same axis shifted out of range by r and 2r on either side) x all (start,end) in [-d-2,d+2]^2 x steps {1,2,3,-1} + INT64 extremes + all two-axis slices of rank-2 data); index-coded data, dtype round-robin over all 14 element types, every Transpose / Concat / Gather case additionally as int64 and as float32; index tensors int32 instead of int64 in every fourth Gather / Slice case; quick tier keeps a seeded 1/%d sample of the Slice sweep of rank 3 and of Expand", maxRank, keep), tier == "thorough", 1200)
 	cw := &opEmitter{cw: raw}
-	sel := func(rk int) bool { return rk <= 2 || keep == 1 || rnd.Intn(keep) == 0 }
+	bigShape := false // set for the shapes with an extent above 3: their Slice sweep is sampled 1 in 12
+	sel := func(rk int) bool {
+		if bigShape {
+			return rnd.Intn(12) == 0
+		}
+		return rk <= 2 || keep == 1 || rnd.Intn(keep) == 0
+	}
 	// the data dtype goes round-robin over all 14; Transpose / Concat / Gather cases are emitted twice more,
 	// as int64 and as float32 (dtForce), so that every shape of theirs meets the two commonest types
 	dtForce := -1
@@ -98,10 +104,16 @@ func genC08(dir, tier string, seed int64) {
 	}
 	_ = f32t
 	perms := map[int][][]int64{1: {{0}}, 2: {{0, 1}, {1, 0}}, 3: {{0, 1, 2}, {0, 2, 1}, {1, 0, 2}, {1, 2, 0}, {2, 0, 1}, {2, 1, 0}}}
-	shapes := shapesUpToRank(1, maxRank, []int{1, 2, 3})
+	shapes := append(shapesUpToRank(1, maxRank, []int{1, 2, 3}), [][]int{{5}, {9}, {17}, {2, 9}, {9, 2}, {2, 5, 3}}...)
 	for _, s := range shapes {
 		s := s
 		r := len(s)
+		bigShape = false
+		for _, d := range s {
+			if d > 3 {
+				bigShape = true
+			}
+		}
 		one := func() []tensor.Tensor { return []tensor.Tensor{f32t(s)} }
 		for _, p := range perms[r] {
 			cw.emit("Transpose", []attr{aInts("perm", p)}, one)
